@@ -260,6 +260,15 @@ def direct_oracle(inp, obs):
 
 
 def gen_inputs(tier, rnd):
+    # the same property declared twice: the last declaration counts, also when it puts the default back
+    for first, second, others in (("thousands separator", [".", ""], [["decimal separator", "."]]), ("thousands separator", [",", ""], [["decimal separator", ","]]),
+                                  ("thousands separator", ["", "."], [["decimal separator", "."]]), ("decimal separator", [",", "."], [["thousands separator", ","]]),
+                                  ("item delimiter", ["\"", ";"], []), ("quote character", [";", "\""], [["item delimiter", ";"]]),
+                                  ("escape character", ["\\", "\""], [["item delimiter", "\\"]]), ("line delimiter", ["lf", "any"], [])):
+        for fmt in ("delimited", "fixed"):
+            for pre in (True, False):
+                settings = ([list(o) for o in others] if pre else []) + [[first, v] for v in second] + ([] if pre else [list(o) for o in others])
+                yield {"kind": "validate", "format": fmt, "settings": settings}
     for fmt in FORMATS:
         yield {"kind": "defaults", "format": fmt}
     yield {"kind": "defaults", "format": "nope"}
